@@ -109,7 +109,7 @@ def distinct(e):
 def run(ctx):
     T = ctx.thorough
     ctx.tlc_mc("MC_Punch", "MC_Punch_big.cfg" if T else "MC_Punch.cfg", coverage=T, timeout=1500, workers=16 if T else 8)
-    for m in (("noreg", "stale", "allstun", "inplace", "leak", "leakdup") if T else ("noreg", "stale", "inplace", "leak")):
+    for m in (("noreg", "stale", "allstun", "inplace", "leak", "leakdup", "dupreg") if T else ("noreg", "stale", "inplace", "leak", "dupreg")):
         ctx.tlc_mc("MC_Punch", "MC_Punch_mut_%s.cfg" % m, expect_violation=True, workers=4)
     ctx.write_scenarios("punch", ctx.tlc_gen("MC_Punch", "Gen_Punch.cfg", num=5000 if T else 600, depth=80))
     ctx.go_test("extras", "./realm/", "TestVerif_C20_", ["harness/extras/realm/c20_punch_test.go"], timeout=1500)
